@@ -212,12 +212,19 @@ func init() {
 			return true
 		}},
 		rule{name: "param:schema-and-content", kinds: []string{"Parameter", "Header"}, expect: always(""), apply: func(n metamodel.Node, _ M, v int) bool {
-			if v%2 == 0 {
+			switch v % 3 {
+			case 0:
 				n.Obj["schema"] = M{"type": "string"}
 				n.Obj["content"] = M{"application/json": M{"schema": M{"type": "string"}}}
-			} else {
+			case 1:
 				delete(n.Obj, "schema")
 				delete(n.Obj, "content")
+			default:
+				// neither, written as an empty content map
+				delete(n.Obj, "schema")
+				delete(n.Obj, "example")
+				delete(n.Obj, "examples")
+				n.Obj["content"] = M{}
 			}
 			return true
 		}},
@@ -977,7 +984,9 @@ func enumerate(shard, nshards int, yield func(Case)) {
 			variants = 3
 		case "components:bad-name":
 			variants = 9
-		case "param:bad-example", "mediatype:bad-example", "param:schema-and-content":
+		case "param:schema-and-content":
+			variants = 3
+		case "param:bad-example", "mediatype:bad-example":
 			variants = 2
 		}
 		for ni := range app {
